@@ -31,9 +31,24 @@ type byteQueue struct {
 	rclosed  bool // reader closed (writes fail)
 	wake     chan struct{}
 	deadline time.Time
+	limit    int           // 0 = unbounded; otherwise a writer waits while limit bytes are buffered (flow control)
+	space    chan struct{} // signalled when a reader took bytes
 }
 
-func newByteQueue() *byteQueue { return &byteQueue{wake: make(chan struct{}, 1)} }
+func newByteQueue() *byteQueue {
+	return &byteQueue{wake: make(chan struct{}, 1), space: make(chan struct{}, 1)}
+}
+
+// SetLimit bounds (or, with 0, unbounds) the bytes buffered towards this end's reader.
+func (s *MemStream) SetLimit(n int) {
+	s.in.mu.Lock()
+	s.in.limit = n
+	s.in.mu.Unlock()
+	select {
+	case s.in.space <- struct{}{}:
+	default:
+	}
+}
 
 func (q *byteQueue) signal() {
 	select {
@@ -43,15 +58,30 @@ func (q *byteQueue) signal() {
 }
 
 func (q *byteQueue) write(p []byte) (int, error) {
-	q.mu.Lock()
-	defer q.mu.Unlock()
-	if q.rclosed || q.eof {
-		return 0, io.ErrClosedPipe
-	}
-	q.buf = append(q.buf, p...)
-	q.signal()
+	done := 0
+	for {
+		q.mu.Lock()
+		if q.rclosed || q.eof {
+			q.mu.Unlock()
 
-	return len(p), nil
+			return done, io.ErrClosedPipe
+		}
+		room := len(p) - done
+		if q.limit > 0 {
+			room = min(room, max(0, q.limit-len(q.buf)))
+		}
+		// like a TCP socket: what fits is taken (copied) now, the rest of p is read when there is room again
+		q.buf = append(q.buf, p[done:done+room]...)
+		done += room
+		if room > 0 {
+			q.signal()
+		}
+		q.mu.Unlock()
+		if done == len(p) {
+			return done, nil
+		}
+		<-q.space
+	}
 }
 
 func (q *byteQueue) read(p []byte, selfClosed func() bool) (int, error) {
@@ -69,6 +99,10 @@ func (q *byteQueue) read(p []byte, selfClosed func() bool) (int, error) {
 				q.signal()
 			}
 			q.mu.Unlock()
+			select {
+			case q.space <- struct{}{}:
+			default:
+			}
 
 			return n, nil
 		}
@@ -136,6 +170,12 @@ func (s *MemStream) Close() error {
 	s.in.rclosed = true
 	s.in.signal()
 	s.in.mu.Unlock()
+	for _, q := range []*byteQueue{s.in, s.out} {
+		select {
+		case q.space <- struct{}{}:
+		default:
+		}
+	}
 	if s.n != nil {
 		s.n.streamClosed(s)
 	}
@@ -160,6 +200,10 @@ func (s *MemStream) Buffered() []byte {
 	defer s.in.mu.Unlock()
 	b := s.in.buf
 	s.in.buf = nil
+	select {
+	case s.in.space <- struct{}{}:
+	default:
+	}
 
 	return b
 }
